@@ -123,18 +123,52 @@ def r05_3(ctx):
     if not rd:
         return r
     r.saw(rd["path"])
+    idx = HirIndex(rd)
+    # every place where a vModel* helper is named, with the literal conditions on the way to it (arm patterns and `== "lit"` guards)
+    sites = {}
+    for n in idx.nodes:
+        c = const_str(n)
+        if not (c and c.startswith("vModel")):
+            continue
+        lits, pats, guarded = set(), [], False
+        child = n
+        for p_ in idx.parents(n):
+            if p_.get("k") == "Arm":
+                ps = pat_str(p_["pat"])
+                pats.append(ps)
+                for x in walk(p_["pat"]):
+                    if x.get("k") == "PLit" and isinstance(x.get("v"), str):
+                        lits.add(x["v"])
+                g = p_.get("guard")
+                if g is not None:
+                    cs = [const_str(y) for y in walk(g) if const_str(y)]
+                    eq = [y for y in walk(g) if y.get("k") == "Binary" and y.get("op") == "=="]
+                    if cs and eq:
+                        lits |= set(cs)
+                    else:
+                        guarded = True
+            child = p_
+        lits.discard("model")
+        sites.setdefault(c, []).append({"lits": lits, "pats": pats, "guarded": guarded, "node": n})
+
+    def has(helper, lit):
+        return any(x["lits"] == {lit} and not x["guarded"] for x in sites.get(helper, []))
+    for name, helper, lit in (("select -> vModelSelect", "vModelSelect", "select"), ("textarea -> vModelText", "vModelText", "textarea"),
+                              ("type=\"checkbox\" -> vModelCheckbox", "vModelCheckbox", "checkbox"), ("type=\"radio\" -> vModelRadio", "vModelRadio", "radio")):
+        ok = has(helper, lit)
+        wrong = [h for h, xs in sites.items() if h != helper and any(x["lits"] == {lit} for x in xs)]
+        r.ob(name, ok, C.mloc(rd, rd), "under the literal `%s`" % lit if ok else ("`%s` selects %s" % (lit, wrong) if wrong else "entry not found in the table"))
+    deflt = [x for x in sites.get("vModelText", []) if not x["lits"]]
+    ok = bool(deflt) and all((not x["guarded"]) and any(("None" in p_) or ("Lit(Str(" in p_) for p_ in x["pats"]) for x in deflt)
+    r.ob("other static type / no type -> vModelText", ok, C.mloc(rd, deflt[0]["node"]) if deflt else C.mloc(rd, rd),
+         "default under %s" % [p_ for p_ in deflt[0]["pats"] if "None" in p_ or "Lit(Str(" in p_][:1] if ok else
+         ("the vModelText default is not confined to a string-literal / absent `type` (enclosing arms %s): a `type` written as an expression falls into it" % (deflt[0]["pats"][:3]) if deflt else "entry not found in the table"))
+    dyn = sites.get("vModelDynamic", [])
+    ok = bool(dyn) and all((not x["lits"]) and (not x["guarded"]) and any(p_.startswith("Some(") and "Lit(" not in p_ for p_ in x["pats"]) for x in dyn)
+    r.ob("dynamic type -> vModelDynamic", ok, C.mloc(rd, dyn[0]["node"]) if dyn else C.mloc(rd, rd),
+         "unguarded `Some(..)` arm" if ok else ("the vModelDynamic arm carries a further condition (%s): some non-literal `type` values do not reach it" % dyn[0]["pats"][:2] if dyn else "entry not found in the table"))
     t = expr_str(rd["body"])
-    checks = [
-        ("select -> vModelSelect", "Ident(ident) if (ident.sym == 'select') => Ident(self.import_from_vue('vModelSelect'))"),
-        ("textarea -> vModelText", "Ident(ident) if (ident.sym == 'textarea') => Ident(self.import_from_vue('vModelText'))"),
-        ("type=\"checkbox\" -> vModelCheckbox", "Some(Lit(Str(str))) if (str.value == 'checkbox') => Ident(self.import_from_vue('vModelCheckbox'))"),
-        ("type=\"radio\" -> vModelRadio", "Some(Lit(Str(str))) if (str.value == 'radio') => Ident(self.import_from_vue('vModelRadio'))"),
-        ("other static type / no type -> vModelText", "None | Some(Lit(Str())) => Ident(self.import_from_vue('vModelText'))"),
-        ("dynamic type -> vModelDynamic", "Some() => Ident(self.import_from_vue('vModelDynamic'))"),
-        ("the `type` attribute is looked up by name", "if (ident.sym == 'type') => value"),
-    ]
-    for name, frag in checks:
-        r.ob(name, frag in t, C.mloc(rd, rd), frag[:90] if frag in t else "entry not found in the table")
+    r.ob("the `type` attribute is looked up by name", "'type'" in t and ".sym" in t, C.mloc(rd, rd), "sym == 'type'")
     return r
 
 
